@@ -116,7 +116,7 @@ class EthAddr (_AddrBase):
           # Address of form xx:xx:xx:xx:xx:xx
           # Pick out the hex digits only
           addr = b''.join((addr[x*3:x*3+2] for x in range(0,6)))
-        elif len(addr) == 12:
+        elif len(addr) == 12 and addr.count(b':') == 0:
           pass
         else:
           # Assume it's hex digits but they may not all be in two-digit
